@@ -15,6 +15,8 @@ structure State where
   pipeValid : Bool := false
   pipePol : Policy := { mode := .off, caps := KTab.const 0 }
   failed : List Nat := []
+  pipeFO : Bool := false          -- failover middleware with one fallback server
+  answered : List Nat := []       -- names a fallback answer is cached for
   loops : List (Nat × List String) := []
 
 def parseCsv (s : String) : Option (KTab Nat) := do
@@ -118,16 +120,52 @@ def step (st : State) (w : List String) : State × String :=
       let c : FailCtx := { ctxErr := ctx ≠ "live", bestEffort := be, enforced := m = .enforce ∧ hard, localMark := localMark }
       (st, boolStr (cacheableFailure c))
     | _, _ => (st, "bad-op")
-  | ["pipe", "new", mode, raw, dflt] =>
+  | "pipe" :: "new" :: mode :: raw :: dflt :: opts =>
     match parseCsv raw, parseCsv dflt with
     | some r, some d =>
       match policyFromConfig mode r d with
-      | some p => ({ st with pipeValid := true, pipePol := p, failed := [] }, polStr p)
+      | some p => ({ st with pipeValid := true, pipePol := p, failed := [], answered := [], pipeFO := opts == ["failover"] }, polStr p)
       | none => ({ st with pipeValid := false }, "invalid")
     | _, _ => (st, "bad-op")
+  | ["pipe", "late", _id, k, during, after] =>
+    match parseKind k, during.toNat?, after.toNat? with
+    | some k, some during, some after =>
+      let ops1 : List PinOp := (List.range during).map fun _ => .debit k true
+      let (pin1, _) := pinRun st.pipePol .pending (ops1 ++ [.finish])
+      let ops2 : List PinOp := (List.range after).map fun _ => .debit k true
+      let (_, rs) := pinRun st.pipePol pin1 ops2
+      let okN := (rs.filter (· == .ok)).length
+      let canc := (rs.filter (· == .canceled)).length
+      let lim := rs.length - okN - canc
+      let retain := match pin1 with
+        | .live sh => boolStr (retain st.pipePol sh).2
+        | _ => "none"
+      (st, s!"after={okN}/{canc}/{lim} retain={retain}")
+    | _, _, _ => (st, "bad-op")
+  | ["pipe", "chain", _id, len, edns, warm, _client] =>
+    match len.toNat?, parseBool edns, parseBool warm with
+    | some len, some edns, some warm =>
+      if warm then (st, "warmed") else
+      -- every hop of the alias chain is one internal sub-query of the cache's chase, cached or not
+      let ops : List ApiOp := (List.range len).map fun _ => .debit .internal true
+      let sh := ops.foldl (fun sh op => (apiStep st.pipePol sh op).1) ({} : Shared)
+      match enforcementError st.pipePol sh with
+      | .ok => (st, s!"rcode=0 an={len + 1} ede=-")
+      | _ =>
+        let r := servfailReply st.pipePol sh edns none
+        (st, s!"rcode={r.rcode} an=0 ede={match r.ede with | some e => toString e | none => "-"}")
+    | _, _, _ => (st, "bad-op")
   | ["pipe", "query", name, edns, _do, _client, k, nd] =>
     match name.toNat?, parseBool edns, parseKind k, nd.toNat? with
     | some name, some edns, some k, some nd =>
+      if st.pipeFO then
+        if st.answered.contains name then (st, "rcode=0 ede=- stub=f fb=f") else
+        let ops : List ApiOp := (List.range nd).map fun i => if k.isAggregate then .debit k true else .check k i true
+        let sh := ops.foldl (fun sh op => (apiStep st.pipePol sh op).1) ({} : Shared)
+        let (r, asked) := failoverReply st.pipePol sh edns
+        let st' := if asked then { st with answered := name :: st.answered } else st
+        (st', s!"rcode={r.rcode} ede={match r.ede with | some e => toString e | none => "-"} stub=t fb={boolStr asked}")
+      else
       if st.failed.contains name then
         (st, s!"rcode=2 ede={if edns then "13" else "-"} stub=f")
       else
@@ -176,6 +214,21 @@ def step (st : State) (w : List String) : State × String :=
       let lb := labelCount name
       if minimized ml lb lvl nm then (st, s!"t {lvl + 1}") else (st, s!"f {lb}")
     | _, _, _ => (st, "bad-op")
+  | "ds" :: "new" :: _ => (st, "unmodelled")
+  | ["ds", "verify", mode, cand, dsc, anch, dpos, kpos, d, k] =>
+    match parseMode mode, cand.toNat?, dsc.toNat?, parseBool anch, d.toNat?, k.toNat? with
+    | some m, some cand, some dsc, some anch, some d, some k =>
+      let hitAt : Option Nat := match dpos.toNat?, kpos.toNat? with
+        | some _, some kp => some kp
+        | _, _ => none
+      let recs := (List.range d).map fun j => (k, if dpos.toNat? = some j then hitAt else none)
+      let (ops, ok, err) := dsWalk (m = .enforce) anch cand dsc recs 0 false
+      let nAnch := if anch && ok then 1 else 0
+      match err with
+      | some .dnskeyCand => (st, s!"err=cand ops={ops} anchored=0")
+      | some _ => (st, s!"err=ds ops={ops} anchored=0")
+      | none => (st, s!"err={if ok then "-" else "bogus"} ops={ops} anchored={nAnch}")
+    | _, _, _, _, _, _ => (st, "bad-op")
   | "sigs" :: "new" :: _ => (st, "unmodelled")
   | ["sigs", "verify", mode, cand, rrset, sig, gpos, kpos, s, k] =>
     match parseMode mode, cand.toNat?, rrset.toNat?, sig.toNat?, s.toNat?, k.toNat? with
